@@ -661,6 +661,11 @@ func (d *Def) Evaluation(
 		p.Fatal(ctx, err)
 	}
 
+	// def at the end of a line: a newline token is not a method name
+	if method == "" || method == "\n" {
+		return fmt.Errorf("syntax error: method name expected")
+	}
+
 	ctx.SetMethod(method)
 	d.prepareParserSetting(p, t)
 
